@@ -578,6 +578,10 @@ void DNS::update_records(uint32_t& section_start,
             if (contains_dname(type)) {
                 update_dname(ptr, threshold, offset);
             }
+            else if (type == SOA) {
+                // The primary name server and the mailbox are domain names as well
+                update_dname(update_dname(ptr, threshold, offset), threshold, offset);
+            }
             ptr += size;
         }
     }
